@@ -243,3 +243,7 @@ def run(ctx):
     # ---------------------------------------------------------------- R6 special members
     n6 = L.check_special_members(ctx, "C17.R6", fb, r"^babylon::ObjectPool<.*>::Deleter$")
     ctx.floor("C17.R6", n6, 4, "Deleter move members")
+
+
+SWEEP = ["reusable/test_page_allocator.cpp",
+         "concurrent/test_object_pool.cpp"]
